@@ -418,7 +418,8 @@ def _interrupt(cs, rng, d, area, root):
         return
     k = rng.choice(cand)
     before = snap.snap(area)
-    status, ev = crash.run_forked(run_at(root), k, "sigint", log)
+    imode = rng.choice(["sigint", "sigint_after"])  # before the operation, or while it runs (raised once it is done)
+    status, ev = crash.run_forked(run_at(root), k, imode, log)
     after = snap.snap(area)
     if status != "crashed":
         return
@@ -426,7 +427,7 @@ def _interrupt(cs, rng, d, area, root):
     cs.count("create_commands")
     cs.count("create_interrupted_by_ctrl_c")
     kind = [e[1] for e in E if e[0] == k][0]
-    cs.cls("create", "interrupt-" + kind, "any", "sigint")
+    cs.cls("create", "interrupt-" + kind, "any", imode)
     df = snap.diff(before, after)
     left = [p for p in df["added"] if p.endswith(".tmp")]
     chainless = [p for p in df["added"] if os.path.basename(p) == "ascmhl" and not any(q == p + "/ascmhl_chain.xml" for q in df["added"])]
